@@ -88,7 +88,9 @@ let () =
         let hyp = ref true in
         let sat = Buffer.create 64 in
         let bad = ref false in
-        let fs = List.mapi (fun fi f ->
+        (* reads nfiles x np part blocks; [on_sat fi i] is called for every stream some possible part accepts *)
+        let read_parts (on_sat : int -> int -> unit) =
+          List.mapi (fun fi f ->
             let n = List.length f.f_streams in
             let satf = Array.make n false in
             let parts = List.init np (fun _ ->
@@ -109,19 +111,65 @@ let () =
                       qp_lookups = List.map (List.map nat_of_int) lookups;
                       qp_filter = (fun si -> let i = int_of_nat si in i < Array.length flt && flt.(i)) }
                 | _ -> failwith "qp line") in
-            Array.iteri (fun i b -> if b then begin
-                if Buffer.length sat > 0 then Buffer.add_char sat ',';
-                Buffer.add_string sat (Printf.sprintf "%d.%d" fi i) end) satf;
+            Array.iteri (fun i b -> if b then on_sat fi i) satf;
             (f, parts)) !files in
+        let fs = read_parts (fun fi i ->
+            if Buffer.length sat > 0 then Buffer.add_char sat ',';
+            Buffer.add_string sat (Printf.sprintf "%d.%d" fi i)) in
+        (* the sub-query phases: the model's unsorted search must reproduce the result list of the code and
+           which result matched which part *)
+        let subs_ok = ref true in
+        let nsubs = match next () with [ "subs"; k ] -> int_of_string k | _ -> failwith "subs line" in
+        for _ = 1 to nsubs do
+          let real = match next () with
+            | "sub" :: _ :: _ :: xs -> xs | _ -> failwith "sub line" in
+          let mps = List.init np (fun _ -> match next () with
+              | "mp" :: xs -> List.map int_of_string xs | _ -> failwith "mp line") in
+          let sfs = read_parts (fun _ _ -> ()) in
+          if not !bad then begin
+            let res = sub_search v_fixed sfs in
+            let shown = List.map (fun ((fi, si), _) -> Printf.sprintf "%d.%d" (int_of_nat fi) (int_of_nat si)) res in
+            if shown <> real then subs_ok := false;
+            List.iteri (fun p mp ->
+                let mine = List.filter (fun i -> i >= 0)
+                    (List.mapi (fun pos e -> if entry_matches_part sfs e (nat_of_int p) then pos else -1) res) in
+                if mine <> mp then subs_ok := false) mps
+          end
+        done;
         if not !bad then begin
           let show v =
             let res, more = search_algo v fs keys (nat_of_int limit) (nat_of_int skip) (idok_of ids) in
             (if more then "1:" else "0:") ^
             String.concat "," (List.map (fun ((fi, si), _) -> Printf.sprintf "%d.%d" (int_of_nat fi) (int_of_nat si)) res) in
-          output_string oc (Printf.sprintf "M %s %s %s %s H=%d sat=%s\n" pi si (show v_fixed) (show v_orig)
-                              (if !hyp && !sections_ok then 1 else 0) (Buffer.contents sat));
+          output_string oc (Printf.sprintf "M %s %s %s %s H=%d sat=%s S=%d\n" pi si (show v_fixed) (show v_orig)
+                              (if !hyp && !sections_ok then 1 else 0) (Buffer.contents sat) (if !subs_ok then 1 else 0));
           flush oc
         end
+    | [ "SEL"; ci; nsq; nops ] ->
+        (* subQuerySelection.remove sequences on the model *)
+        let nsq = int_of_string nsq and nops = int_of_string nops in
+        let nums xs = List.map (fun x -> nat_of_int (int_of_string x)) xs in
+        let init = Array.init nsq (fun _ -> match next () with "init" :: xs -> nums xs | _ -> failwith "init line") in
+        let m0 : nat -> nat list = fun k -> let i = int_of_nat k in if i < nsq then init.(i) else [] in
+        let sel = ref [ m0 ] in
+        let buf = Buffer.create 64 in
+        Buffer.add_string buf ("L " ^ ci);
+        for _ = 1 to nops do
+          let sqs = match next () with "op" :: xs -> nums xs | _ -> failwith "op line" in
+          let forb = List.map (fun _ -> match next () with "f" :: xs -> nums xs | _ -> failwith "f line") sqs in
+          sel := sel_remove sqs forb !sel;
+          let combos = Hashtbl.create 16 in
+          List.iter (fun m ->
+              let cur = ref [ "" ] in
+              for i = 0 to nsq - 1 do
+                let set = List.sort_uniq compare (List.map int_of_nat (m (nat_of_int i))) in
+                cur := List.concat_map (fun pre -> List.map (fun x -> Printf.sprintf "%s.%d" pre x) set) !cur
+              done;
+              List.iter (fun x -> Hashtbl.replace combos x ()) !cur) !sel;
+          let l = List.sort compare (Hashtbl.fold (fun k () acc -> k :: acc) combos []) in
+          Buffer.add_string buf (Printf.sprintf " %d:%s" (if sel_empty !sel then 1 else 0) (String.concat "," l))
+        done;
+        output_string oc (Buffer.contents buf ^ "\n")
     | [] -> ()
     | l -> failwith ("unexpected line: " ^ String.concat " " l)
   done;
